@@ -274,6 +274,10 @@ def loaders(chk, mod):
                     res = ('return', ok)
                 except (core.Unsupported, core.PathLimit):
                     raise
+                except (TypeError, AttributeError) as e:
+                    if found:   # the code did more with the opaque stand-in fields than handing them on (a range check on the parsed number, ...)
+                        raise core.Unsupported(f'{fname} inspects the fields it parses: {type(e).__name__}: {e}'[:200]) from None
+                    res = ('ValueError', None)
                 except Exception:  # noqa: BLE001 -- any refusal counts
                     res = ('ValueError', None)
                 want_file = 'atomic_weights.csv' if fname == '_load_atomic_weight' else 'atomic_masses.csv'
